@@ -86,9 +86,6 @@ def check_series(ctx, kind, toks, orc, step, idxs, where, scale_r=False, drift=T
   ok_all = True
   for i in idxs:
     x = R.F(step * i)
-    ref = orc.value(x)
-    sc = orc.vscale(x) if i > 0 else abs(ref)
-    mag = orc.mag(x)
     ab = 0
     if drift and i > 0:
       try:
@@ -96,7 +93,8 @@ def check_series(ctx, kind, toks, orc, step, idxs, where, scale_r=False, drift=T
       except Exception:
         ab = 0
     if scale_r:
-      ref, sc, mag, ab = ref * x, sc * x, mag * x, ab * x
-    ok = oracle.check_token(ctx, kind, toks[i], ref, sc, rel=rel, abs_=ab, mag=mag, where="%s i=%d x=%s" % (where, i, mp.nstr(x, 10)))
+      ab = ab * x
+    ok = oracle.check_value(ctx, kind, toks[i], orc, x, factor=(x if scale_r else 1), rel=rel, abs_=ab,
+                            where="%s i=%d x=%s" % (where, i, mp.nstr(x, 10)))
     ok_all = ok_all and ok
   return ok_all
